@@ -248,7 +248,8 @@ class ModuleTranslator:
     # -- module level
     def translate(self):
         mod = importlib.import_module(self.pymod)
-        out = [f"(* GENERATED by translator/pylite.py from {self.path} — do not edit *)",
+        shown = self.path[self.path.index('/src/pycel/') + 1:] if '/src/pycel/' in self.path else self.path
+        out = [f"(* GENERATED by translator/pylite.py from {shown} of the tree under test — do not edit *)",
                "From Coq Require Import ZArith QArith List Bool.",
                "From PV Require Import Lib.Py.",
                *[f"From PV Require Import {h}." for h in self.header_imports],
